@@ -26,9 +26,12 @@ VARIABLES fam, arr, tol,   \* the case
           sit,             \* sci: situations of the model's float branch the case is in (Situations; the driver
                            \* requires each of them to be enumerated)
           kb,              \* recorded-defect predicates that hold
+          reps,            \* the memory representations under which the driver executes the case (RepsOf(arr)): compress()
+                           \* hands the array object it was given to the encoders (ByteArray for the lossless form and
+                           \* for arrays of one element, FixedPoint otherwise); the result is a function of the values
           ok               \* sci: every array the model may return is inside the tolerance;
                            \* int: all 12 candidate chains return Smallest(arr) exactly
-vars == <<fam, arr, tol, done, dom, impl, dstar, sit, kb, ok>>
+vars == <<fam, arr, tol, done, dom, impl, dstar, sit, kb, reps, ok>>
 
 \* the last element repeated r more times
 Stretch(v, r) == v \o [i \in 1..r |-> v[Len(v)]]
@@ -75,7 +78,7 @@ Init == /\ \/ \E t \in FloatTypes, k \in 1..SciLen : \E v \in [1..k -> Vals(t)],
            \/ \E t \in FloatTypes : \E v \in DeepArrays(t), r \in Stretches(t), T \in Tols(t) : InitSci(t, v, r, T)
            \/ \E k \in 1..2 : \E v \in [1..k -> EdgeVals], r \in {0, 12} :
                  fam = "int" /\ arr = Arr(3, Stretch(v, r)) /\ tol = 1000
-        /\ done = FALSE /\ dom = TRUE /\ impl = [oc |-> "todo", ys |-> {}, fits |-> FALSE] /\ dstar = 0 /\ sit = {} /\ kb = {} /\ ok = TRUE
+        /\ done = FALSE /\ dom = TRUE /\ impl = [oc |-> "todo", ys |-> {}, fits |-> FALSE] /\ dstar = 0 /\ sit = {} /\ kb = {} /\ ok = TRUE /\ reps = {}
 Compute ==
   /\ ~done /\ done' = TRUE
   /\ dom' = (fam = "sci" => Dom_Sci(arr, tol))
@@ -91,6 +94,7 @@ Compute ==
           /\ ok' = \A ys \in impl'.ys : \A i \in DOMAIN arr.v : AcceptSci(arr.t, tol, arr.v[i], Y(arr.v[i], ys[i]))
      ELSE /\ impl' = [oc |-> "ok", ys |-> {}, fits |-> FALSE] /\ dstar' = 0 /\ sit' = {} /\ kb' = {}
           /\ ok' = \A c \in Candidates : LET r == ImplRoundTrip(c, Smallest(arr)) IN r.oc = "ok" /\ r.a.v = arr.v
+  /\ reps' = RepsOf(arr)
   /\ UNCHANGED <<fam, arr, tol>>
 Next == Compute
 Spec == Init /\ [][Next]_vars
@@ -101,6 +105,8 @@ Spec == Init /\ [][Next]_vars
 \* every candidate chain returns the integers it was given
 InvTolerance == done => ok
 \* the call returns (at least the lossless array), also when no number of decimals reaches the tolerance
+\* the lossless form ByteArray writes is the same under every representation of the array
+InvRepFree == done => ("native" \in reps /\ RepFree(<<<<"BA", None>>>>, arr))
 InvReturns == (done /\ dom /\ fam = "sci") =>
                  /\ impl.oc = "ok" /\ [i \in DOMAIN arr.v |-> arr.v[i].m] \in impl.ys
                  /\ ("DecimalsUnreachable" \in sit => ~impl.fits)
